@@ -331,3 +331,134 @@ Proof.
     + destruct t as [|c t1]; [discriminate|]. destruct (assoc_byte ESCAPE_LETTERS c); intro H; inversion H; subst; cbn; lia.
     + destruct t as [|c t1]; [discriminate|]. destruct (assoc_byte ESCAPE_LETTERS c); intro H; inversion H; subst; cbn; lia.
 Qed.
+
+(* fuel monotonicity *)
+Lemma inner_mono : forall f d s x,
+  inner_literal f d s = Some x -> forall f', f <= f' -> inner_literal f' d s = Some x.
+Proof.
+  induction f as [|f IH]; intros d s x H f' Hf; [discriminate|].
+  destruct f' as [|f']; [lia|]. assert (Hff : f <= f') by lia.
+  cbn [inner_literal] in *. destruct s as [|c t]; [exact H|].
+  destruct (is_direct_literal c).
+  { destruct (inner_literal f d t) as [[o r]|] eqn:E; [|discriminate].
+    rewrite (IH _ _ _ E f' Hff). exact H. }
+  destruct (byte_eqb c x5c).
+  { destruct (escape_after_backslash t) as [[e r]|]; [|exact H].
+    destruct (inner_literal f d r) as [[o r']|] eqn:E; [|discriminate].
+    rewrite (IH _ _ _ E f' Hff). exact H. }
+  destruct (byte_eqb c x0d).
+  { destruct t as [|c1 t'].
+    - destruct (inner_literal f d []) as [[o r]|] eqn:E; [|discriminate].
+      rewrite (IH _ _ _ E f' Hff). exact H.
+    - destruct (byte_eqb c1 x0a).
+      + destruct (inner_literal f d t') as [[o r]|] eqn:E; [|discriminate].
+        rewrite (IH _ _ _ E f' Hff). exact H.
+      + destruct (inner_literal f d (c1 :: t')) as [[o r]|] eqn:E; [|discriminate].
+        rewrite (IH _ _ _ E f' Hff). exact H. }
+  destruct (byte_eqb c x0a).
+  { destruct (inner_literal f d t) as [[o r]|] eqn:E; [|discriminate].
+    rewrite (IH _ _ _ E f' Hff). exact H. }
+  destruct (byte_eqb c x28); [|exact H].
+  destruct d as [|d]; [exact H|].
+  destruct (inner_literal f d t) as [[o r]|] eqn:E; [|discriminate].
+  rewrite (IH _ _ _ E f' Hff).
+  destruct r as [|c2 r]; [exact H|]. destruct (byte_eqb c2 x29); [|exact H].
+  destruct (inner_literal f (S d) r) as [[o' r']|] eqn:E2; [|discriminate].
+  rewrite (IH _ _ _ E2 f' Hff). exact H.
+Qed.
+
+(* a closing parenthesis stops the fold *)
+Lemma inner_stop_close f d X : 0 < f -> inner_literal f d (x29 :: X) = Some ([], x29 :: X).
+Proof. intro Hf. destruct f as [|f]; [lia|]. reflexivity. Qed.
+
+Lemma inner_emit : forall d t b, Emit d t b ->
+  forall depth R out r f, d <= depth ->
+    inner_literal f depth R = Some (out, r) ->
+    exists f', inner_literal f' depth (b ++ R) = Some (t ++ out, r).
+Proof.
+  induction 1 as [d|d c t b Hc H IH|d c c' t b He H IH|d t b H IH|d t1 b1 t2 b2 H1 IH1 H2 IH2];
+    intros depth R out r f Hd HR.
+  - exists f. exact HR.
+  - destruct (IH depth R out r f Hd HR) as [f' Hf']. exists (S f').
+    cbn [app inner_literal]. rewrite Hc, Hf'. reflexivity.
+  - destruct (IH depth R out r f Hd HR) as [f' Hf']. exists (S f').
+    cbn [app inner_literal]. destruct direct_facts as [F1 _]. rewrite F1.
+    change (byte_eqb x5c x5c) with true. cbn iota. rewrite (He (b ++ R)), Hf'. reflexivity.
+  - destruct (IH depth R out r f Hd HR) as [f' Hf']. exists (S f').
+    cbn [app inner_literal]. destruct direct_facts as [_ [_ [_ [F4 _]]]]. rewrite F4.
+    change (byte_eqb x0a x5c) with false. change (byte_eqb x0a x0d) with false.
+    change (byte_eqb x0a x0a) with true. cbn iota. rewrite Hf'. reflexivity.
+  - destruct depth as [|dd]; [lia|].
+    destruct (IH2 (S dd) R out r f Hd HR) as [f2 Hf2].
+    assert (Hstop : inner_literal 1 dd (x29 :: b2 ++ R) = Some ([], x29 :: b2 ++ R)) by reflexivity.
+    destruct (IH1 dd (x29 :: b2 ++ R) [] (x29 :: b2 ++ R) 1 ltac:(lia) Hstop) as [f1 Hf1].
+    exists (S (Nat.max f1 f2)).
+    cbn [app]. rewrite <- app_assoc. cbn [app inner_literal].
+    destruct direct_facts as [_ [F2 _]]. rewrite F2.
+    change (byte_eqb x28 x5c) with false. change (byte_eqb x28 x0d) with false.
+    change (byte_eqb x28 x0a) with false. change (byte_eqb x28 x28) with true. cbn iota.
+    rewrite (inner_mono _ _ _ _ Hf1 (Nat.max f1 f2)) by lia.
+    change (byte_eqb x29 x29) with true. cbn iota.
+    rewrite (inner_mono _ _ _ _ Hf2 (Nat.max f1 f2)) by lia.
+    rewrite app_nil_r, <- app_assoc. reflexivity.
+Qed.
+
+(* fuel sufficiency: the fold takes at most one step per input byte *)
+Lemma inner_enough : forall f d s, length s < f ->
+  exists out r, inner_literal f d s = Some (out, r) /\ length r <= length s.
+Proof.
+  induction f as [|f IH]; intros d s Hl; [lia|]. cbn [inner_literal].
+  destruct s as [|c t]; [exists [], []; split; [reflexivity|cbn; lia]|].
+  cbn [length] in Hl.
+  assert (Hrec : forall d' u, length u <= length t ->
+            exists out r, inner_literal f d' u = Some (out, r) /\ length r <= length u)
+    by (intros; apply IH; lia).
+  destruct (is_direct_literal c).
+  { destruct (Hrec d t (le_n _)) as [o [r [E Hr]]]. rewrite E. exists (c :: o), r. split; [reflexivity|cbn; lia]. }
+  destruct (byte_eqb c x5c).
+  { destruct (escape_after_backslash t) as [[e r0]|] eqn:Ee.
+    - pose proof (escape_shorter _ _ _ Ee) as Hs.
+      destruct (Hrec d r0 ltac:(lia)) as [o [r [E Hr]]]. rewrite E.
+      eexists _, r. split; [reflexivity|cbn; lia].
+    - exists [], (c :: t). split; [reflexivity|lia]. }
+  destruct (byte_eqb c x0d).
+  { destruct t as [|c1 t'].
+    - destruct (Hrec d [] (le_n _)) as [o [r [E Hr]]]. rewrite E. eexists _, r. split; [reflexivity|cbn in *; lia].
+    - destruct (byte_eqb c1 x0a).
+      + destruct (Hrec d t' ltac:(cbn; lia)) as [o [r [E Hr]]]. rewrite E. eexists _, r. split; [reflexivity|cbn in *; lia].
+      + destruct (Hrec d (c1 :: t') (le_n _)) as [o [r [E Hr]]]. rewrite E. eexists _, r. split; [reflexivity|cbn in *; lia]. }
+  destruct (byte_eqb c x0a).
+  { destruct (Hrec d t (le_n _)) as [o [r [E Hr]]]. rewrite E. eexists _, r. split; [reflexivity|cbn; lia]. }
+  destruct (byte_eqb c x28); [|exists [], (c :: t); split; [reflexivity|lia]].
+  destruct d as [|d]; [exists [], (c :: t); split; [reflexivity|lia]|].
+  destruct (Hrec d t (le_n _)) as [o [r [E Hr]]]. rewrite E.
+  destruct r as [|c2 r]; [exists [], (c :: t); split; [reflexivity|lia]|].
+  destruct (byte_eqb c2 x29); [|exists [], (c :: t); split; [reflexivity|lia]].
+  destruct (Hrec (S d) r ltac:(cbn in Hr; lia)) as [o' [r' [E' Hr']]]. rewrite E'.
+  eexists _, r'. split; [reflexivity|cbn in *; lia].
+Qed.
+
+(* ---------- the round trip ---------- *)
+
+Theorem literal_string_rt : forall t rest fuel,
+  length (write_literal t ++ rest) <= fuel ->
+  literal_string fuel (write_literal t ++ rest) = POk t rest.
+Proof.
+  intros t rest fuel Hf. rewrite write_literal_go in *.
+  set (b := emit_mask t (fst (go t 0))) in *.
+  cbn [app] in *. rewrite <- app_assoc in *. cbn [app] in *.
+  unfold literal_string. change (byte_eqb x28 x28) with true. cbn iota.
+  pose proof (write_literal_emit t) as HE. fold b in HE.
+  assert (Hstop : inner_literal 1 MAXB (x29 :: rest) = Some ([], x29 :: rest)) by reflexivity.
+  destruct (inner_emit _ _ _ HE MAXB (x29 :: rest) [] (x29 :: rest) 1 (le_n _) Hstop) as [f' Hf'].
+  rewrite app_nil_r in Hf'.
+  destruct (inner_enough fuel MAXB (b ++ x29 :: rest)) as [o [r [E _]]]; [cbn [length] in Hf; lia|].
+  pose proof (inner_mono _ _ _ _ Hf' (Nat.max f' fuel) ltac:(lia)) as M1.
+  pose proof (inner_mono _ _ _ _ E (Nat.max f' fuel) ltac:(lia)) as M2.
+  rewrite M1 in M2. inversion M2; subst o r.
+  fold MAXB. rewrite E. change (byte_eqb x29 x29) with true. reflexivity.
+Qed.
+
+(* no byte of a written literal string is needed from [rest]: the first byte is '(' *)
+Lemma write_literal_head t : exists u, write_literal t = x28 :: u.
+Proof. eexists. reflexivity. Qed.
